@@ -2,10 +2,10 @@ INFO = {
     "level": "proof",
     "level_text": "StepSimulation.update is a pipeline (data-flow rule on the real AST): the instruction generators, the built-in dispatcher included, consume the state produced by this step's driver update, so they see this step's availability. time_in_range is proved equal to the cyclic-interval specification ((x - start) mod 86400 < (end - start) mod 86400: start inclusive, end exclusive, wrapping past midnight, empty when equal) for all seconds of day; the schedule closure built per row of the schedules file is proved (closure captured from the real enclosing function) to return exactly `time-of-day(sim_time) in shift`; HumanAvailable.update / HumanUnavailable.update are proved for all states to leave the driver available iff the schedule says so, to change nothing but that vehicle's driver_state, and to file exactly one schedule report iff availability flipped; perform_driver_state_updates (a fold, inductive invariant) keeps the state well-formed and touches nothing else; it runs on the pre-tick time, before instructions are generated (StepSimulation.update).",
     "technique": "contract-based deductive verification: VCs generated from the real Python AST (pyvc), discharged by z3/cvc5; one data-flow rule on StepSimulation.update (each stage consumes the state produced by the stage before; labelled ast-rule)",
-    "level_note": "datetime.utcfromtimestamp(t).time() is modelled as t mod 86400 and datetime.time values as seconds of day (assumed); parsing of HH:MM:SS trusted; a driver whose schedule id is missing from the environment stays as it is (as the code does); the dispatcher's `available` filter is a nested closure not yet under contract; on an error inside one driver's update the fold returns the initial state (latent defect noted in DESIGN 7; it keeps the invariants).",
+    "level_note": "datetime.utcfromtimestamp(t).time() is modelled as t mod 86400 and datetime.time values as seconds of day (assumed); parsing of HH:MM:SS trusted; a driver whose schedule id is missing from the environment stays as it is (as the code does); the dispatcher's eligibility filter (closure _is_valid_for_dispatch) is under contract: an eligible vehicle's driver is on shift; on an error inside one driver's update the fold returns the initial state (latent defect noted in DESIGN 7; it keeps the invariants).",
     "trusted_base": ["datetime time-of-day = epoch seconds mod 86400"],
     "assumptions": ["every human driver's schedule id is present in env.schedules"],
-    "not_decided": ["Dispatcher._is_valid_for_dispatch requires driver_state.available (closure over scipy-based assignment code)"],
+    "not_decided": [],
 }
 
 def _pipeline_obligation(repo):
